@@ -181,17 +181,70 @@ _ISO_INV = [
     'implies(%s, all(y == %s for (x, y) in todo))' % (_ISO, _H % 'x'),
     'implies(%s, all(matching[x] == %s for x in matching))' % (_ISO, _H % 'x')]
 contract(M, 'dfa_isomorphic1', {'D1': 'DFA', 'D2': 'DFA'}, returns='Bool',
-         requires=['dfa_wf(D1)', 'dfa_wf(D2)', 'D1.Sigma == D2.Sigma'],
+         requires=['dfa_wf(D1)', 'dfa_wf(D2)', 'D1.Sigma == D2.Sigma', 'fin(D1.Q)'],
          ensures=['result == isomorphic(D1, D2)'],
          asserts=['implies(result, all(x in matching for x in Reach(D1, D1.q0)))', 'implies(result, is_iso(matching, D1, D2))'],
          types={'matching': 'Map[State,State]', 'inverse': 'Map[State,State]', 'todo': 'Set[(State,State)]'},
-         loops={1: {'invariant': _ISO_INV, 'exit_hints': ['Reach_least(D1, D1.q0, keys(matching))']},
-                2: {'ghost': 'doneS', 'invariant': _ISO_INV[:4] + _ISO_INV[6:] + [
+         # termination: every iteration either matches a new state of D1 (finitely many) or only shrinks the work list
+         loops={1: {'invariant': _ISO_INV + ['fin(todo)', 'all(x in D1.Q for x in matching)'], 'exit_hints': ['Reach_least(D1, D1.q0, keys(matching))'],
+                    'decreases': ['card(D1.Q - keys(matching))', 'card(todo)']},
+                2: {'ghost': 'doneS', 'invariant': ['fin(todo)', 'all(x in D1.Q for x in matching)'] + _ISO_INV[:4] + _ISO_INV[6:] + [
                     'q1 in matching and matching[q1] == q2 and q1 in Reach(D1, D1.q0) and q2 in Reach(D2, D2.q0) and q1 in D1.Q and q2 in D2.Q',
                     'all((D1.delta[(x, a)] in matching and matching[D1.delta[(x, a)]] == D2.delta[(matching[x], a)]) or (D1.delta[(x, a)], D2.delta[(matching[x], a)]) in todo for x in matching for a in D1.Sigma if x != q1)',
                     'all((D1.delta[(q1, a)] in matching and matching[D1.delta[(q1, a)]] == D2.delta[(q2, a)]) or (D1.delta[(q1, a)], D2.delta[(q2, a)]) in todo for a in doneS)',
                     '(D1.q0 in matching and matching[D1.q0] == D2.q0) or (D1.q0, D2.q0) in todo']}},
-         theories=['dfa', 'iso'], props=['C20'], note='partial correctness; termination is checked by the bounded stand-in')
+         theories=['dfa', 'iso'], props=['C20'], note='total correctness: the while loop has the lexicographic measure (unmatched states of D1, size of the work list); fin(D1.Q) is the type invariant of Python sets')
+
+# the matrix variant transcribed from the specification: reachable pairs are marked in a Boolean matrix, then the counting loops
+# check that the marked relation is one-to-one
+_MK = 'all(((x, y) in matching) == (x in D1.Q and y in D2.Q) for x in atoms() for y in atoms())'
+_M1 = 'all(implies(matching[(x, y)], x in Reach(D1, D1.q0) and y in Reach(D2, D2.q0) and ((x in D1.F) == (y in D2.F))) for x in D1.Q for y in D2.Q)'
+_M3 = 'matching[(D1.q0, D2.q0)]'
+_M5 = 'implies(%s, all(implies(matching[(x, y)], y == %s) for x in D1.Q for y in D2.Q))' % (_ISO, _H % 'x')
+_MCLOSED = 'all(trig(implies(matching[(x, y)], matching[(D1.delta[(x, a)], D2.delta[(y, a)])]), matching[(x, y)], a in D1.Sigma) for x in D1.Q for y in D2.Q for a in D1.Sigma)'
+_MFUN = 'all(implies(matching[(x, y)] and matching[(x, y2)], y == y2) for x in D1.Q for y in D2.Q for y2 in D2.Q)'
+_MINJ = 'all(implies(matching[(x, y)] and matching[(x2, y)], x == x2) for x in D1.Q for x2 in D1.Q for y in D2.Q)'
+def _count_inv(m, done):
+    return ['count >= 0', 'implies(count == 0, all(not %s for z in %s))' % (m % 'z', done),
+            'implies(count <= 1, all(implies(%s and %s, z == z2) for z in %s for z2 in %s))' % (m % 'z', m % 'z2', done, done),
+            'implies(count >= 1, any(%s for z in %s))' % (m % 'z', done),
+            'implies(count >= 2, any(%s and %s and z != z2 for z in %s for z2 in %s))' % (m % 'z', m % 'z2', done, done)]
+_MEAS = '2 * card(keys(matching) - rel(matching)) + card(to_inspect)'
+contract(M, 'dfa_isomorphic', {'D1': 'DFA', 'D2': 'DFA'}, returns='Bool',
+         requires=['dfa_wf(D1)', 'dfa_wf(D2)', 'D1.Sigma == D2.Sigma', 'fin(D1.Q)', 'fin(D2.Q)'],
+         ensures=['result == isomorphic(D1, D2)'],
+         types={'matching': 'Map[(State,State),Bool]', 'to_inspect': 'Set[(State,State)]'},
+         # termination: marking a pair (at most |Q1|*|Q2| times) pays for the one work-list entry it adds, and every iteration removes one
+         loops={1: {'invariant': [_MK, _M1, _M3, _M5, 'all(matching[(x, y)] and x in D1.Q and y in D2.Q for (x, y) in to_inspect)',
+                                  'all(implies(matching[(x, y)] and (x, y) not in to_inspect, matching[(D1.delta[(x, a)], D2.delta[(y, a)])]) for x in D1.Q for y in D2.Q for a in D1.Sigma)',
+                                  'fin(to_inspect)', 'fin(keys(matching))'],
+                    'exit_hints': ['Reach_least(D1, D1.q0, rel_dom(matching))'],
+                    'snapshot': {'c0': _MEAS}, 'decreases': [_MEAS]},
+                2: {'ghost': 'doneS', 'invariant': ['fin(to_inspect)', 'fin(keys(matching))', _MEAS + ' <= c0 - 1',
+                                  _MK, _M1, _M3, _M5, 'all(matching[(x, y)] and x in D1.Q and y in D2.Q for (x, y) in to_inspect)',
+                                  'q1 in D1.Q and q2 in D2.Q and matching[(q1, q2)] and (q1, q2) not in to_inspect',
+                                  'all(implies(matching[(x, y)] and (x, y) not in to_inspect and (x, y) != (q1, q2), matching[(D1.delta[(x, a)], D2.delta[(y, a)])]) for x in D1.Q for y in D2.Q for a in D1.Sigma)',
+                                  'all(matching[(D1.delta[(q1, a)], D2.delta[(q2, a)])] for a in doneS)']},
+                3: {'ghost': 'done1', 'invariant': ['all(implies(matching[(x, y)] and matching[(x, y2)], y == y2) for x in done1 for y in D2.Q for y2 in D2.Q)']},
+                4: {'ghost': 'done2', 'invariant': ['q1 in D1.Q'] + _count_inv('matching[(q1, %s)]', 'done2')},
+                5: {'ghost': 'done3', 'invariant': ['all(implies(matching[(x, y)] and matching[(x2, y)], x == x2) for y in done3 for x in D1.Q for x2 in D1.Q)']},
+                6: {'ghost': 'done4', 'invariant': ['q2 in D2.Q'] + _count_inv('matching[(%s, q2)]', 'done4')}},
+         pre_return_asserts={'last': [_MCLOSED, _MFUN, _MINJ, 'D1.q0 in rel_dom(matching)',
+                                      'all(implies(x in rel_dom(matching), x in D1.Q and any(y in D2.Q and matching[(x, y)] for y in atoms())) for x in atoms())',
+                                      'all(implies(x in D1.Q and y in D2.Q and matching[(x, y)], x in rel_dom(matching)) for x in atoms() for y in atoms())',
+                                      'all(implies(x in D1.Q and y in D2.Q and a in D1.Sigma, D1.delta[(x, a)] in D1.Q and D2.delta[(y, a)] in D2.Q) for x in atoms() for y in atoms() for a in atoms())',
+                                      'all(implies(x in D1.Q and y in D2.Q and a in D1.Sigma and matching[(x, y)], D1.delta[(x, a)] in rel_dom(matching)) for x in atoms() for y in atoms() for a in atoms())',
+                                      'all(implies(x in rel_dom(matching) and a in D1.Sigma, D1.delta[(x, a)] in rel_dom(matching)) for x in atoms() for a in atoms())',
+                                      'all(x in rel_dom(matching) for x in Reach(D1, D1.q0))',
+                                      'all(implies(x in rel_dom(matching), x in D1.Q and rel_fn(matching, x) in D2.Q and matching[(x, rel_fn(matching, x))]) for x in atoms())',
+                                      'all(implies(x in Reach(D1, D1.q0), x in D1.Q and rel_fn(matching, x) in D2.Q and matching[(x, rel_fn(matching, x))]) for x in atoms())',
+                                      'rel_fn(matching, D1.q0) == D2.q0',
+                                      'all(rel_fn(matching, x) in Reach(D2, D2.q0) for x in Reach(D1, D1.q0))',
+                                      'all(rel_fn(matching, D1.delta[(x, a)]) == D2.delta[(rel_fn(matching, x), a)] for x in Reach(D1, D1.q0) for a in D1.Sigma)',
+                                      'all((x in D1.F) == (rel_fn(matching, x) in D2.F) for x in Reach(D1, D1.q0))',
+                                      'all(implies(rel_fn(matching, x) == rel_fn(matching, y), x == y) for x in Reach(D1, D1.q0) for y in Reach(D1, D1.q0))',
+                                      'is_iso_rel(matching, D1, D2)']},
+         theories=['dfa', 'iso'], props=['C20'], note='total correctness for every choice order; the counting loops are for-loops over finite sets; fin(D.Q) is the type invariant of Python sets')
 
 # ---------------------------------------------------------------------------------------------- C15 (DFA trace)
 contract(M, 'dfa_simulate_word', {'D': 'DFA', 'word': 'Word'}, returns='List[(State,Word)]',
